@@ -338,6 +338,21 @@ class C08WireOracle(Oracle):
         loss._send_probe = send_probe
         loss._verif_probe_watch = True
 
+    def after_step(self):
+        # first clause of the property at connection level: the bytes counted as in flight are exactly the
+        # in-flight packets loss recovery still tracks (whatever restarts the connection went through)
+        for ep in self.sim.endpoints:
+            conn = ep.conn
+            if conn is None or ep.broken:
+                continue
+            loss = conn._loss
+            tracked = sum(p.sent_bytes for sp in loss.spaces for p in sp.sent_packets.values() if p.in_flight)
+            if loss.bytes_in_flight != tracked:
+                raise Violation("c08.bytes-in-flight", "connection:%s" % (
+                    "more-than-tracked" if loss.bytes_in_flight > tracked else "less-than-tracked"),
+                    "%s at t=%.4f: bytes_in_flight=%d but the in-flight packets still tracked in its %d packet number "
+                    "spaces add up to %d" % (ep.name, self.sim.k.now, loss.bytes_in_flight, len(loss.spaces), tracked))
+
     def on_api_call(self, ep, name, args):
         if ep.conn is not None:
             self._watch_probes(ep)
